@@ -719,8 +719,15 @@ func runC05(cx *CheckCtx) {
 	}
 	// loop invariance: the amount mentions no value defined in the loop of the call
 	hdr := innermostLoop(fee.Instr.Block())
-	if hdr == nil || fee.Ctx.parent != nil {
-		cx.violated("fee-loop", "container.PutNamed/loop", "the fee transfer is not in a loop of PutNamed over the Alphabet keys", fee.Where(w))
+	// (the loop may sit in a helper of PutNamed that receives the keys, the payer and the amount: the rules
+	// below read the loop in the frame that holds the call; the registry write is then compared with the
+	// helper's call site in PutNamed)
+	helperDepth := 0
+	for c := fee.Ctx; c != nil && c.parent != nil; c = c.parent {
+		helperDepth++
+	}
+	if hdr == nil || helperDepth > 1 {
+		cx.violated("fee-loop", "container.PutNamed/loop", "the fee transfer is not in a loop of PutNamed (or of a helper it calls directly) over the Alphabet keys", fee.Where(w))
 	} else {
 		cx.decide(!a.termInLoop(amt, fee.Ctx, hdr) && !a.termInLoop(from, fee.Ctx, hdr), "fee-loop", "container.PutNamed/invariant", "amount and payer are loop-invariant", "the charged amount or the payer changes between Alphabet nodes", fee.Where(w))
 		// every key is paid: the loop ends only on exhaustion and no iteration goes round the call
@@ -776,7 +783,30 @@ func runC05(cx *CheckCtx) {
 				xb = c.cont.Block()
 			}
 		}
-		cx.decide(done.Dominates(xb) && !loopBlocks(hdr)[xb], "fee-atomic", "container.PutNamed/registry-after-loop", "the registry write is dominated by the exit of the fee loop", "the container can be stored before every fee transfer was made", xPut.Where(w))
+		okAfter := done.Dominates(xb) && !loopBlocks(hdr)[xb]
+		if fee.Ctx.parent != nil {
+			// the loop is in a helper: the helper returns only through the exhausted loop (no-early-exit above) and
+			// the registry write comes after the helper's call in PutNamed
+			hb := fee.Ctx.cont.Block()
+			okAfter = hb.Dominates(xb) && innermostLoop(hb) == nil
+			if hb == xb {
+				hi, xi := -1, -1
+				var xin ssa.Instruction = xPut.Instr
+				for c := xPut.Ctx; c.parent != nil; c = c.parent {
+					xin = c.cont
+				}
+				for i, in := range hb.Instrs {
+					if in == fee.Ctx.cont {
+						hi = i
+					}
+					if in == xin {
+						xi = i
+					}
+				}
+				okAfter = hi >= 0 && xi > hi
+			}
+		}
+		cx.decide(okAfter, "fee-atomic", "container.PutNamed/registry-after-loop", "the registry write is dominated by the exit of the fee loop", "the container can be stored before every fee transfer was made", xPut.Where(w))
 		catching := false
 		for c := fee.Ctx; c != nil; c = c.parent {
 			if c.catching {
